@@ -228,7 +228,27 @@ void run_cvc(uint64_t seed, const sk_mask* mask, sk_result* out)
 			sk_count("fault.cvc_stored_bit_flip", 1);
 			break;
 		case 2: /* verifier's clock yields an impossible date */
-			date[2] = 1, date[3] = 3 + (octet)sk_below(&r, 6);
+			switch (sk_below(&r, 7))
+			{
+			case 0: date[2] = 1, date[3] = 3 + (octet)sk_below(&r, 6); break;   /* month 13..18 */
+			case 1: date[2] = 0, date[3] = 0; break;                            /* month 00 */
+			case 2: date[4] = 0, date[5] = 0; break;                            /* day 00 */
+			case 3: date[4] = 3, date[5] = 2 + (octet)sk_below(&r, 7); break;   /* day 32..38 */
+			case 4: date[2] = 0, date[3] = (octet)(sk_chance(&r, 1, 2) ? 4 : 6), date[4] = 3, date[5] = 1; break; /* 31 April / June */
+			case 5: /* 29 February of a non-leap year, 30 February of any */
+				date[2] = 0, date[3] = 2;
+				if (sk_chance(&r, 1, 2))
+					date[4] = 3, date[5] = 0;
+				else
+				{
+					unsigned y = 10u * date[0] + date[1];
+					if (y % 4 == 0)
+						date[1] = (octet)((date[1] + 1) % 10), date[0] = (octet)(date[1] == 0 ? (date[0] + 1) % 10 : date[0]);
+					date[4] = 2, date[5] = 9;
+				}
+				break;
+			default: date[sk_below(&r, 6)] = (octet)(10 + sk_below(&r, 246)); break; /* not a decimal digit */
+			}
 			expect = 0;
 			sk_count("fault.cvc_invalid_calendar_date", 1);
 			break;
